@@ -98,6 +98,27 @@ theorem chainOk_sorted (out : Str) : ∀ (l : List Placed) (lo hi : Nat), chainO
     intro r hr
     exact (chainOk_mem out qs _ _ h.2.2 r hr).1
 
+/-- every placement sits at a multiple of the alignment in force for it: the section's
+`SUBALIGN` when it has one, the input section's own alignment otherwise. -/
+def alignedAll (sub : Option Nat) (l : List Placed) : Prop :=
+  ∀ p ∈ l, 1 ≤ effAlign sub p.inp → effAlign sub p.inp ∣ p.addr
+
+theorem alignedAll_append (sub : Option Nat) (a b : List Placed) (ha : alignedAll sub a) (hb : alignedAll sub b) :
+    alignedAll sub (a ++ b) := by
+  intro p hp
+  rcases List.mem_append.1 hp with h | h
+  · exact ha p h
+  · exact hb p h
+
+theorem alignUp_dvd' (x a : Nat) (ha : 1 ≤ a) : a ∣ Ld.alignUp x a := by
+  unfold Ld.alignUp
+  split
+  · rename_i h
+    have : a = 1 := by omega
+    subst this
+    exact Nat.one_dvd x
+  · exact Nat.dvd_mul_left a _
+
 /-- the location counter is inside the output section `c`. -/
 structure Inside (c : Cur) (st : St) : Prop where
   cur : st.cur = some c
@@ -111,16 +132,18 @@ structure Adv (c : Cur) (st st' : St) : Prop where
   inside : Inside c st'
   mono : st.dot ≤ st'.dot
   secs : st'.secs = st.secs
-  placed : ∃ new, st'.placed = st.placed ++ new ∧ chainOk c.name st.dot new st'.dot
+  placed : ∃ new, st'.placed = st.placed ++ new ∧ chainOk c.name st.dot new st'.dot ∧ alignedAll c.subalign new
+
+theorem alignedAll_nil (sub : Option Nat) : alignedAll sub [] := fun _ h => by cases h
 
 theorem Adv.refl (c : Cur) (st : St) (h : Inside c st) : Adv c st st :=
-  ⟨h, Nat.le_refl _, rfl, [], by simp, Nat.le_refl _⟩
+  ⟨h, Nat.le_refl _, rfl, [], by simp, Nat.le_refl _, alignedAll_nil _⟩
 
 theorem Adv.trans {c : Cur} {a b d : St} (h₁ : Adv c a b) (h₂ : Adv c b d) : Adv c a d := by
-  obtain ⟨n₁, hp₁, hc₁⟩ := h₁.placed
-  obtain ⟨n₂, hp₂, hc₂⟩ := h₂.placed
+  obtain ⟨n₁, hp₁, hc₁, ha₁⟩ := h₁.placed
+  obtain ⟨n₂, hp₂, hc₂, ha₂⟩ := h₂.placed
   exact ⟨h₂.inside, Nat.le_trans h₁.mono h₂.mono, by rw [h₂.secs, h₁.secs],
-    n₁ ++ n₂, by rw [hp₂, hp₁, List.append_assoc], chainOk_append _ _ _ _ _ _ hc₁ hc₂⟩
+    n₁ ++ n₂, by rw [hp₂, hp₁, List.append_assoc], chainOk_append _ _ _ _ _ _ hc₁ hc₂, alignedAll_append _ _ _ ha₁ ha₂⟩
 
 /-! ### `placeAll` -/
 
@@ -128,20 +151,24 @@ theorem placeAll_spec (out : Str) (sub : Option Nat) : ∀ (l : List InSec) (st 
     let st' := placeAll out sub st l
     st'.cur = st.cur ∧ st'.inDiscard = st.inDiscard ∧ st'.secs = st.secs ∧ st'.syms = st.syms ∧ st'.emptied = st.emptied ∧
     st'.discarded = st.discarded ∧
-    ∃ new, st'.placed = st.placed ++ new ∧ chainOk out st.dot new st'.dot ∧ new.map (·.inp) = l := by
+    ∃ new, st'.placed = st.placed ++ new ∧ chainOk out st.dot new st'.dot ∧ new.map (·.inp) = l ∧ alignedAll sub new := by
   intro l
   induction l with
-  | nil => intro st; exact ⟨rfl, rfl, rfl, rfl, rfl, rfl, [], by simp [placeAll], Nat.le_refl _, rfl⟩
+  | nil => intro st; exact ⟨rfl, rfl, rfl, rfl, rfl, rfl, [], by simp [placeAll], Nat.le_refl _, rfl, alignedAll_nil _⟩
   | cons i rest ih =>
     intro st
     simp only [placeAll]
-    obtain ⟨h1, h2, h3, h4, h5, h6, new, hp, hc, hm⟩ := ih { st with
+    obtain ⟨h1, h2, h3, h4, h5, h6, new, hp, hc, hm, hal⟩ := ih { st with
         dot := Ld.alignUp st.dot (effAlign sub i) + i.size,
         placed := st.placed ++ [(⟨i, Ld.alignUp st.dot (effAlign sub i), out⟩ : Placed)] }
-    refine ⟨h1, h2, h3, h4, h5, h6, ⟨i, Ld.alignUp st.dot (effAlign sub i), out⟩ :: new, ?_, ?_, ?_⟩
+    refine ⟨h1, h2, h3, h4, h5, h6, ⟨i, Ld.alignUp st.dot (effAlign sub i), out⟩ :: new, ?_, ?_, ?_, ?_⟩
     · rw [hp]; simp
     · exact ⟨le_alignUp _ _, rfl, hc⟩
     · simp [hm]
+    · intro p hp'
+      rcases List.mem_cons.1 hp' with rfl | hp'
+      · intro h1'; exact alignUp_dvd' _ _ h1'
+      · exact hal p hp'
 
 /-! ### one statement inside an output section -/
 
@@ -170,18 +197,18 @@ theorem step_inner (objs : List InSec) (sty : Style) (wild : Bool) (l : Line) (h
     | input k p m s =>
       simp only [step, hin.cur]
       have := placeAll_spec c.name c.subalign (objs.filter fun i => selects p m s wild i && isFree st i) st
-      obtain ⟨h1, h2, h3, _, _, _, new, hp, hc, _⟩ := this
+      obtain ⟨h1, h2, h3, _, _, _, new, hp, hc, _, hal⟩ := this
       exact ⟨⟨by rw [h1, hin.cur], Nat.le_trans hin.le (chainOk_le _ _ _ _ hc), by rw [h2, hin.nd]⟩,
-        chainOk_le _ _ _ _ hc, h3, new, hp, hc⟩
+        chainOk_le _ _ _ _ hc, h3, new, hp, hc, hal⟩
     | pad n =>
       have hs : step objs st (.addAssign c!"." (.hex n)) r = { st with dot := st.dot + n } := by
         simp [step, hin.nd, eval]
       rw [hs]
-      exact ⟨⟨hin.cur, by have := hin.le; simp; omega, hin.nd⟩, by simp, rfl, [], by simp, by simp [chainOk]⟩
+      exact ⟨⟨hin.cur, by have := hin.le; simp; omega, hin.nd⟩, by simp, rfl, [], by simp, by simp [chainOk], alignedAll_nil _⟩
     | offset nm =>
       unfold linkerSym
       rw [step_assign_sym objs st _ _ _ _ _ r (W.endsOk_ne_dot _ (W.linkerOffset_ok sty nm)) hin.nd]
-      exact ⟨⟨hin.cur, hin.le, hin.nd⟩, Nat.le_refl _, rfl, [], by simp, Nat.le_refl _⟩
+      exact ⟨⟨hin.cur, hin.le, hin.nd⟩, Nat.le_refl _, rfl, [], by simp, Nat.le_refl _, alignedAll_nil _⟩
   | blank => simp only [step]; exact Adv.refl c st hin
   | alignDot a =>
     unfold alignSymbol
@@ -191,18 +218,18 @@ theorem step_inner (objs : List InSec) (sty : Style) (wild : Bool) (l : Line) (h
     rw [hs]
     have h := le_alignUp (st.dot - c.addr) a
     have hle := hin.le
-    exact ⟨⟨hin.cur, by simp, hin.nd⟩, by simp; omega, rfl, [], by simp, by simp [chainOk]; omega⟩
+    exact ⟨⟨hin.cur, by simp, hin.nd⟩, by simp; omega, rfl, [], by simp, by simp [chainOk]; omega, alignedAll_nil _⟩
   | gp off p h =>
     rw [step_assign_sym objs st _ _ _ _ _ r gp_ne_dot hin.nd]
-    exact ⟨⟨hin.cur, hin.le, hin.nd⟩, Nat.le_refl _, rfl, [], by simp, Nat.le_refl _⟩
+    exact ⟨⟨hin.cur, hin.le, hin.nd⟩, Nat.le_refl _, rfl, [], by simp, Nat.le_refl _, alignedAll_nil _⟩
   | symDot s hs =>
     unfold linkerSym
     rw [step_assign_sym objs st _ _ _ _ _ r (W.endsOk_ne_dot _ hs) hin.nd]
-    exact ⟨⟨hin.cur, hin.le, hin.nd⟩, Nat.le_refl _, rfl, [], by simp, Nat.le_refl _⟩
+    exact ⟨⟨hin.cur, hin.le, hin.nd⟩, Nat.le_refl _, rfl, [], by simp, Nat.le_refl _, alignedAll_nil _⟩
   | symSize s a b hs =>
     unfold linkerSym
     rw [step_assign_sym objs st _ _ _ _ _ r (W.endsOk_ne_dot _ hs) hin.nd]
-    exact ⟨⟨hin.cur, hin.le, hin.nd⟩, Nat.le_refl _, rfl, [], by simp, Nat.le_refl _⟩
+    exact ⟨⟨hin.cur, hin.le, hin.nd⟩, Nat.le_refl _, rfl, [], by simp, Nat.le_refl _, alignedAll_nil _⟩
 
 /-- a run of such statements. -/
 theorem run_inner (objs : List InSec) (sty : Style) (wild : Bool) (c : Cur) :
@@ -347,7 +374,7 @@ theorem bracket_run (objs : List InSec) (sty : Style) (wild : Bool) (c : Cur) (P
       s = (execK objs st P ([linkerSym S .dot] ++ B ++ Q ++ [linkerSym E .dot, linkerSym Z (.absSub E S)] ++ k)).dot ∧
       lookupLast S st'.syms = some (.num s) ∧ lookupLast E st'.syms = some (.num e) ∧
       lookupLast Z st'.syms = some (.num ((e + M32 - s % M32) % M32)) ∧
-      st'.placed = st.placed ++ new ∧ chainOk c.name s new e ∧
+      st'.placed = st.placed ++ new ∧ chainOk c.name s new e ∧ alignedAll c.subalign new ∧
       (∃ mid : St, Inside c mid ∧ s ≤ mid.dot ∧
         e = (execK objs mid Q ([linkerSym E .dot, linkerSym Z (.absSub E S)] ++ k)).dot) := by
   -- after P
@@ -394,9 +421,9 @@ theorem bracket_run (objs : List InSec) (sty : Style) (wild : Bool) (c : Cur) (P
     have oS : operand { st4 with syms := st4.syms ++ [(E, Val.num st4.dot)] } S = some st1.dot :=
       operand_num _ S _ hS (by simp [lookupLast_snoc, Ne.symm hSE, sS4])
     simp only [eval, oE, oS]
-  obtain ⟨new, hnew, hchain⟩ := a3.placed
+  obtain ⟨new, hnew, hchain, halg⟩ := a3.placed
   have hd : st2.dot = st1.dot := by rw [e2]
-  refine ⟨st1.dot, st4.dot, new, _, rfl, a1.mono, ?_, ?_, ?_, ?_, rfl, ?_, ?_, ?_, ?_, ?_, ?_⟩
+  refine ⟨st1.dot, st4.dot, new, _, rfl, a1.mono, ?_, ?_, ?_, ?_, rfl, ?_, ?_, ?_, ?_, ?_, halg, ?_⟩
   · have := a3.mono; have := a4.mono; omega
   · rw [e1, e5]
   · rw [e1, e5]; exact ⟨a4.inside.cur, a4.inside.le, a4.inside.nd⟩
